@@ -84,6 +84,9 @@ pub enum Node {
     Nest { pre: String, outer: Elem, a: String, inner: Elem, b: String, c: String, post: String },
     /// open line = indent + open_lead + open tag + open_trail ; kids ; close line = close_indent + close_lead + close tag + close_trail
     Block { indent: String, open_lead: String, elem: Elem, open_trail: String, kids: Vec<Node>, close_indent: String, close_lead: String, close_trail: String },
+    /// renders no line of its own: the first line of whatever comes next (the next node, or the closing-tag line of the
+    /// enclosing block) continues the current line, separated by this text instead of a line break
+    Join(String),
 }
 
 #[derive(Serialize, Deserialize, Clone, Hash, Debug, PartialEq, Eq)]
@@ -196,9 +199,16 @@ pub fn render(doc: &Doc, sp: &Spell) -> Rendered {
         src: String,
         lines: Vec<(usize, usize)>,
         elems: Vec<ElemInfo>,
+        join: Option<String>,
     }
     impl<'a> R<'a> {
         fn begin_line(&mut self) -> usize {
+            if let Some(sep) = self.join.take() {
+                if let Some((s, _)) = self.lines.pop() {
+                    self.src.push_str(&sep);
+                    return s;
+                }
+            }
             if !self.lines.is_empty() {
                 self.src.push('\n');
             }
@@ -210,6 +220,9 @@ pub fn render(doc: &Doc, sp: &Spell) -> Rendered {
         fn nodes(&mut self, ns: &[Node], parent: Option<usize>) {
             for n in ns {
                 match n {
+                    Node::Join(sep) => {
+                        self.join = Some(sep.clone());
+                    }
                     Node::Line(t) => {
                         let s = self.begin_line();
                         self.src.push_str(t);
@@ -303,10 +316,16 @@ pub fn render(doc: &Doc, sp: &Spell) -> Rendered {
             }
         }
     }
-    let mut r = R { sp, src: String::new(), lines: vec![], elems: vec![] };
+    let mut r = R { sp, src: String::new(), lines: vec![], elems: vec![], join: None };
     r.nodes(&doc.nodes, None);
     if doc.final_newline && !r.lines.is_empty() {
         r.src.push('\n');
+    }
+    // joined lines: "alone on its line" has to be read off the rendered lines
+    for e in r.elems.iter_mut().filter(|e| !e.inline) {
+        let (os, oe) = r.lines[e.open_line];
+        let (cs, ce) = r.lines[e.close_line];
+        e.tags_alone = e.open_line != e.close_line && is_blank(&r.src[os..e.open.0]) && is_blank(&r.src[e.open.1..oe]) && is_blank(&r.src[cs..e.close.0]) && is_blank(&r.src[e.close.1..ce]);
     }
     Rendered { src: r.src, lines: r.lines, elems: r.elems }
 }
@@ -458,6 +477,9 @@ pub struct Opts {
     pub wrapper_tag_pct: usize,
     /// probability (percent) that a wrapper line is blank (needs blank_wrappers)
     pub blank_wrapper_pct: usize,
+    /// probability (percent) that a block element gets a neighbour / child whose tag stands on the block's own tag line
+    /// (`<outer> <inner>` … , … `</inner> </outer>`), rendered with Join nodes
+    pub join_pct: usize,
 }
 
 impl Opts {
@@ -478,6 +500,7 @@ impl Opts {
             max_top: 5,
             units: vec!["  ", "    ", "\t"],
             first_line_empty_pct: 5,
+            join_pct: 0,
             odd_conditions: true,
             unique_lines: true,
             tag_styles: true,
@@ -712,6 +735,58 @@ impl<'a, 't> Gen<'a, 't> {
             let n = self.t.below(5);
             self.nodes(level + 1, depth_left - 1, n, in_unwrap_body)
         };
+        let mut kids = kids;
+        if self.o.join_pct > 0 && depth_left > 0 && self.t.chance(self.o.join_pct) {
+            let sep = self.t.s(&[" ", "", "  "]).to_string();
+            let form = self.t.below(5);
+            let small = |g: &mut Self| {
+                let e = g.elem(false);
+                let n = g.t.below(3);
+                let inner = g.nodes(level + 1, depth_left.saturating_sub(1), n, true);
+                Node::Block { indent: String::new(), open_lead: String::new(), elem: e, open_trail: String::new(), kids: inner, close_indent: g.unit.repeat(level), close_lead: String::new(), close_trail: String::new() }
+            };
+            match form {
+                // a child that opens on this block's opening-tag line and closes before the rest of the body
+                0 => {
+                    let c = small(self);
+                    kids.insert(0, c);
+                    kids.insert(0, Node::Join(sep));
+                }
+                // a child that closes on this block's closing-tag line
+                1 => {
+                    let mut c = small(self);
+                    if let Node::Block { indent: ci, .. } = &mut c {
+                        *ci = self.unit.repeat(level + 1);
+                    }
+                    kids.push(c);
+                    kids.push(Node::Join(sep));
+                }
+                // a child that opens on the opening-tag line and contains the first k nodes of the body
+                2 => {
+                    let k = self.t.below(kids.len() + 1);
+                    let head: Vec<Node> = kids.drain(..k).collect();
+                    let e = self.elem(false);
+                    kids.insert(0, Node::Block { indent: String::new(), open_lead: String::new(), elem: e, open_trail: String::new(), kids: head, close_indent: self.unit.repeat(level), close_lead: String::new(), close_trail: String::new() });
+                    kids.insert(0, Node::Join(sep));
+                }
+                // a child that contains the last nodes of the body and closes on the closing-tag line
+                3 => {
+                    let k = self.t.below(kids.len() + 1);
+                    let tail: Vec<Node> = kids.drain(k..).collect();
+                    let e = self.elem(false);
+                    kids.push(Node::Block { indent: self.unit.repeat(level + 1), open_lead: String::new(), elem: e, open_trail: String::new(), kids: tail, close_indent: self.unit.repeat(level), close_lead: String::new(), close_trail: String::new() });
+                    kids.push(Node::Join(sep));
+                }
+                // both tag lines shared with one child around the whole body
+                _ => {
+                    let body: Vec<Node> = kids.drain(..).collect();
+                    let e = self.elem(self.o.unwrap_tags_shared);
+                    kids.push(Node::Join(sep.clone()));
+                    kids.push(Node::Block { indent: String::new(), open_lead: String::new(), elem: e, open_trail: String::new(), kids: body, close_indent: self.unit.repeat(level), close_lead: String::new(), close_trail: String::new() });
+                    kids.push(Node::Join(sep));
+                }
+            }
+        }
         Node::Block { indent, open_lead, elem, open_trail, kids, close_indent, close_lead, close_trail }
     }
 
@@ -837,6 +912,7 @@ pub fn count_lines(ns: &[Node]) -> usize {
     ns.iter()
         .map(|n| match n {
             Node::Line(_) | Node::Inline { .. } | Node::Row { .. } | Node::Nest { .. } => 1,
+            Node::Join(_) => 0,
             Node::Block { kids, .. } => 2 + count_lines(kids),
         })
         .sum()
